@@ -12,7 +12,10 @@ EXPLANATION = (
     "closed list of *checked* arguments (arity of the registered builtin + per-application arity check; dominating "
     "test; checked key; non-empty; just-built pair; constant input; front-end I/O; counters bounded by memory or by "
     "input size; total numeric casts; parser invariant; guard liveness for RefCell borrows).  A site without a "
-    "discharge is reported.  Second clause: every Interpreter field written on paths from eval is classified as a "
+    "discharge is reported.  Index / slice sites in the macro expander and in the lexer's scanners that no argument bounds are "
+    "decided by following probe inputs through the code (expander: template elements under an ellipsis whose variables matched runs "
+    "of different lengths; lexer: texts with line breaks and multi-byte characters at every cut): a probe that reaches the panic is the "
+    "violation, probes that pass through leave the site UNDECIDED.  Second clause: every Interpreter field written on paths from eval is classified as a "
     "monotone cache or as paired state (C14).")
 NOT_DECIDED = ("stack exhaustion by deep nesting / deep non-tail recursion, non-termination and memory exhaustion (outside the "
                "property); panics inside third-party crates on their own internal invariants.")
